@@ -19,10 +19,12 @@ from vq import core
 # ------------------------------------------------------------------------------------------------
 SCHEMA = {
     "alpha": None,
+    "alpha_2": None,  # name string-extends "alpha" (not a child of it)
+    "beta": None,
     "beta_one": None,
     "gamma_two": None,
     "dtype_real": None,  # real default key
-    "grp_a": {"x": None, "y_z": None, "w_v": None, "sub": {"p": None, "q_r": None}},
+    "grp_a": {"x": None, "x_tra": None, "y_z": None, "w_v": None, "sub": {"p": None, "q_r": None}, "sub_x": None},
     "grp_b": {"k": None, "m_n": None},
     "viz": {"cmap": None, "real_space_units": None, "colors": {"set": None}},  # real defaults
     "cupy": {"fft_cache_size": None},  # real default spelled with hyphens in quantem.yaml
@@ -97,29 +99,42 @@ def mapping_for(draw, path):
     return out
 
 
+def _pool(paths, focus):
+    """With a focus subtree, 3 of 4 draws come from that subtree: histories then revisit the same few keys
+    (set / defaults / refresh collisions, None <-> section transitions) instead of spreading over 22 paths."""
+    if not focus:
+        return st.sampled_from(paths)
+    inside = [p for p in paths if p[0] == focus]
+    if not inside:
+        return st.sampled_from(paths)
+    return st.one_of(st.sampled_from(inside), st.sampled_from(inside), st.sampled_from(inside), st.sampled_from(paths))
+
+
 @st.composite
-def set_item(draw):
-    if draw(st.integers(0, 4)) == 0:
-        path = draw(st.sampled_from(INTERIOR_PATHS))
-        val = draw(mapping_for(path))
+def set_item(draw, focus=None):
+    if draw(st.integers(0, 2 if focus else 4)) == 0:
+        path = draw(_pool(INTERIOR_PATHS, focus))
+        # an interior key may also hold None (an empty yaml section); a later section default / mapping
+        # value must turn it into a section again
+        val = None if draw(st.integers(0, 2)) == 0 else draw(mapping_for(path))
     else:
-        path = draw(st.sampled_from(LEAF_PATHS))
+        path = draw(_pool(LEAF_PATHS, focus))
         val = draw(VALUES)
     return [draw(spelled_path(path)), val]
 
 
 @st.composite
-def set_step(draw):
-    items = draw(st.lists(set_item(), min_size=1, max_size=3))
+def set_step(draw, focus=None):
+    items = draw(st.lists(set_item(focus), min_size=1, max_size=3))
     form = draw(st.sampled_from(["mapping", "kwargs", "mapping+kwargs"]))
     return {"op": "set", "form": form, "items": items}
 
 
 @st.composite
-def defaults_step(draw):
+def defaults_step(draw, focus=None):
     new = {}
     for _ in range(draw(st.integers(1, 3))):
-        path = draw(st.sampled_from(LEAF_PATHS))
+        path = draw(_pool(LEAF_PATHS, focus))
         sp = draw(spelled_path(path))
         d = new
         ok = True
@@ -137,10 +152,19 @@ def defaults_step(draw):
     return {"op": "update_defaults", "new": new}
 
 
+PREFIX_PAIRS = [(("alpha",), ("alpha_2",)), (("beta",), ("beta_one",)), (("grp_a", "x"), ("grp_a", "x_tra")), (("grp_a", "sub"), ("grp_a", "sub_x")), (("grp_a", "sub"), ("grp_a", "sub", "p"))]
+
+
 @st.composite
-def with_step(draw):
-    outer = draw(st.lists(set_item(), min_size=1, max_size=3))
-    inner = draw(st.none() | st.lists(set_item(), min_size=1, max_size=2))
+def with_step(draw, focus=None):
+    outer = draw(st.lists(set_item(focus), min_size=1, max_size=3))
+    if draw(st.integers(0, 2)) == 0:
+        # two entries of ONE set call whose dotted names are string-prefix related (shorter first or second)
+        a, b = draw(st.sampled_from(PREFIX_PAIRS))
+        ia = [draw(spelled_path(a)), draw(mapping_for(a)) if a in INTERIOR_PATHS else draw(VALUES)]
+        ib = [draw(spelled_path(b)), draw(VALUES)]
+        outer = ([ia, ib] if draw(st.integers(0, 3)) else [ib, ia]) + outer[:1]
+    inner = draw(st.none() | st.lists(set_item(focus), min_size=1, max_size=2))
     return {"op": "with", "outer": outer, "inner": inner, "raise_inside": draw(st.booleans())}
 
 
@@ -161,14 +185,48 @@ def device_step(draw):
     return {"op": "device", "via": via, "value": val, "good": good}
 
 
-STEP = st.one_of(
-    set_step(), set_step(), set_step(), defaults_step(), defaults_step(),
-    st.just({"op": "refresh"}), with_step(), device_step(),
-)  # fmt: skip
+def step_strategy(focus=None):
+    return st.one_of(
+        set_step(focus), set_step(focus), set_step(focus), defaults_step(focus), defaults_step(focus),
+        st.just({"op": "refresh"}), st.just({"op": "refresh"}), with_step(focus), device_step(),
+    )  # fmt: skip
 
 
-def histories(max_steps):
-    return st.lists(STEP, min_size=1, max_size=max_steps).map(lambda s: {"kind": "history", "steps": s})
+@st.composite
+def histories(draw, max_steps):
+    focus = draw(st.sampled_from([None, None, "grp_a", "grp_a", "viz", "grp_b"]))
+    steps = draw(st.lists(step_strategy(focus), min_size=5 if focus else 1, max_size=max_steps))
+    return {"kind": "history", "steps": steps}
+
+
+DEEP = [(("grp_a",), ("grp_a", "sub", "p")), (("grp_a",), ("grp_a", "sub", "q_r")), (("viz",), ("viz", "colors", "set")), (("grp_a", "sub"), ("grp_a", "sub", "p"))]
+
+
+@st.composite
+def transition_histories(draw):
+    """Template for the rare ordered event chain 'a section key holds None (empty yaml section) -> a later
+    defaults layer fills it with a nested section -> the user sets a key deep inside -> refresh', with
+    random steps interleaved.  The random generator produces each event often but the chain rarely."""
+    top, leaf = draw(st.sampled_from(DEEP))
+    focus = top[0]
+    noise = lambda: draw(st.lists(step_strategy(focus), max_size=2))  # noqa: E731
+    nested = draw(VALUES)
+    for c in reversed(leaf[len(top):]):
+        nested = {_spell(draw, c): nested}
+    d = nested
+    for c in reversed(top):
+        d = {_spell(draw, c): d}
+    steps = []
+    steps += noise()
+    steps.append({"op": "set", "form": draw(st.sampled_from(["mapping", "kwargs"])), "items": [[draw(spelled_path(top)), None]]})
+    steps += noise()
+    steps.append({"op": "update_defaults", "new": d})
+    steps += noise()
+    steps.append({"op": "set", "form": draw(st.sampled_from(["mapping", "kwargs"])), "items": [[draw(spelled_path(leaf)), draw(VALUES)]]})
+    steps += noise()
+    steps.append({"op": "refresh"})
+    steps += noise()
+    return {"kind": "history", "steps": steps}
 
 
 # ------------------------------------------------------------------------------------------------
@@ -258,42 +316,53 @@ class Harness:
     def _viol(self, msg):
         raise core.Violation(msg, self.case)
 
-    def _real_set(self, items, form, as_cm=False):
-        qc = self.qc
-        mapping, kwargs = {}, {}
-        for i, (sp, val) in enumerate(items):
-            val = copy.deepcopy(val)
-            to_kw = form == "kwargs" or (form == "mapping+kwargs" and i % 2 == 1)
-            if to_kw:
-                key = "__".join(sp)
-                if key in kwargs:
-                    to_kw = False
-                else:
-                    kwargs[key] = val
-            if not to_kw:
-                key = ".".join(sp)
-                if key in mapping:
-                    # same literal key twice in one mapping: last one wins in a dict literal too
-                    del mapping[key]
-                mapping[key] = val
-        return qc.set(mapping if (mapping or not kwargs) else None, **kwargs), mapping, kwargs
-
-    def _model_set(self, items, form):
-        # the real call applies the mapping first, then kwargs, each in insertion order
+    @staticmethod
+    def _plan(items, form):
+        """Resolve the call into its real application order: list of (spelled path, value, to_kw).  The
+        mapping is applied first, then the keyword arguments, each in insertion order; a repeated literal
+        key is superseded by its last occurrence (as in a dict literal, keeping the first position for a
+        plain dict update but we delete + re-insert, so it moves to the end)."""
         order_map, order_kw = {}, {}
         for i, (sp, val) in enumerate(items):
             to_kw = form == "kwargs" or (form == "mapping+kwargs" and i % 2 == 1)
+            if to_kw and "__".join(sp) in order_kw:
+                to_kw = False
             if to_kw:
-                key = "__".join(sp)
-                if key in order_kw:
-                    to_kw = False
-                else:
-                    order_kw[key] = (sp, val)
-            if not to_kw:
-                key = ".".join(sp)
-                order_map.pop(key, None)
-                order_map[key] = (sp, val)
-        for sp, val in list(order_map.values()) + list(order_kw.values()):
+                order_kw["__".join(sp)] = (sp, val, True)
+            else:
+                order_map.pop(".".join(sp), None)
+                order_map[".".join(sp)] = (sp, val, False)
+        return list(order_map.values()) + list(order_kw.values())
+
+    def _applicable(self, items, form):
+        """Plan of the call without the entries that would assign BELOW a key currently holding None / a
+        scalar (a TypeError today, not a claimed input), decided on a simulation in application order."""
+        sim = copy.deepcopy(self.model.cur)
+        plan = []
+        for sp, val, to_kw in self._plan(items, form):
+            path = [norm_key(c) for c in sp]
+            d, ok = sim, True
+            for c in path[:-1]:
+                if c in d and not isinstance(d[c], dict):
+                    ok = False
+                    break
+                d = d.setdefault(c, {})
+            if ok:
+                d[path[-1]] = norm_tree(copy.deepcopy(val))
+                plan.append((sp, val, to_kw))
+            else:
+                self.ctx.exclude("set_below_none_or_scalar")
+        return plan
+
+    def _real_set(self, plan):
+        qc = self.qc
+        mapping, kwargs = {}, {}
+        for sp, val, to_kw in plan:
+            (kwargs if to_kw else mapping)["__".join(sp) if to_kw else ".".join(sp)] = copy.deepcopy(val)
+        return qc.set(mapping if (mapping or not kwargs) else None, **kwargs), mapping, kwargs
+
+    def _model_set(self, plan):
+        for sp, val, _to_kw in plan:
             self.model.set([norm_key(c) for c in sp], val)
             self.flags["set_paths"].add(tuple(norm_key(c) for c in sp))
 
@@ -302,9 +371,11 @@ class Harness:
         op = step["op"]
         ctx, case, qc = self.ctx, self.case, self.qc
         if op == "set":
-            with ctx.sut(case, "config.set"):
-                self._real_set(step["items"], step["form"])
-            self._model_set(step["items"], step["form"])
+            items = self._applicable(step["items"], step["form"])
+            if items:
+                with ctx.sut(case, "config.set"):
+                    self._real_set(items)
+                self._model_set(items)
         elif op == "refresh":
             with ctx.sut(case, "config.refresh"):
                 qc.refresh()
@@ -372,19 +443,23 @@ class Harness:
         class _Boom(Exception):
             pass
 
+        outer_items = self._applicable(step["outer"], "mapping")
+        if not outer_items:
+            return
         try:
             with ctx.sut(case, "with config.set(...)"):
-                cm, _m, _k = self._real_set(step["outer"], "mapping")
+                cm, _m, _k = self._real_set(outer_items)
                 if not (hasattr(type(cm), "__enter__") and hasattr(type(cm), "__exit__")):
                     self._viol("config.set(...) cannot be used as a context manager (no __enter__/__exit__): previous values are not restored on exit")
                 with cm:
-                    self._model_set(step["outer"], "mapping")
+                    self._model_set(outer_items)
                     self.compare("inside with-block")
-                    if step["inner"] is not None:
+                    inner_items = self._applicable(step["inner"], "mapping") if step["inner"] is not None else []
+                    if inner_items:
                         mid_model = copy.deepcopy(self.model.cur)
-                        cm2, _m2, _k2 = self._real_set(step["inner"], "mapping")
+                        cm2, _m2, _k2 = self._real_set(inner_items)
                         with cm2:
-                            self._model_set(step["inner"], "mapping")
+                            self._model_set(inner_items)
                             self.compare("inside nested with-block")
                         self.model.cur = mid_model
                         self.compare("after leaving the nested with-block")
@@ -438,6 +513,16 @@ class Harness:
                 self._viol("rejected device request %r changed the stored device %r -> %r" % (step["value"], before, after))
         ctx.count("device:" + ("accepted" if step["good"] else "rejected"))
 
+    def _ancestors_are_sections(self, path):
+        d = self.model.cur
+        for c in path[:-1]:
+            if not isinstance(d, dict):
+                return False  # below a key holding None / a scalar
+            if c not in d:
+                return True  # plain absence (KeyError expected)
+            d = d[c]
+        return isinstance(d, dict)
+
     # -- invariant ---------------------------------------------------------------------------------
     def compare(self, when):
         qc, case = self.qc, self.case
@@ -454,6 +539,11 @@ class Harness:
                     gp = True
                 except KeyError:
                     got, gp = None, False
+                except TypeError:
+                    # reading below a key that holds None / a scalar: "absent" is reported as TypeError
+                    got, gp = None, False
+                    if present or self._ancestors_are_sections(path):
+                        self._viol("%s: get(%r) raised TypeError" % (when, key))
                 except Exception as e:  # noqa: BLE001
                     self._viol("%s: get(%r) raised %s: %s" % (when, key, type(e).__name__, e))
                 if gp != present:
@@ -515,3 +605,4 @@ def check(ctx, case):
 
 def search(ctx):
     core.run_given(ctx, "histories", histories(20), lambda c: check(ctx, c), ctx.n(1500, 4000))
+    core.run_given(ctx, "none-to-section", transition_histories(), lambda c: check(ctx, c), ctx.n(250, 800))
